@@ -792,24 +792,79 @@ class _InlineExpr(ast.NodeTransformer):
         return res
 
 
-def _unroll(st):
-    """`for a, b in ((x1, y1), (x2, y2)): body` -> body[x1, y1]; body[x2, y2]  (literal sequence of names / chains / constants,
+def _iter_elts(node):
+    """the elements a `for` header visits, in order, when that is syntactically evident: a tuple / list literal,
+    `zip(..)` / `enumerate(..)` / `reversed(..)` of such, a dict literal with constant keys (itself, `.keys()`,
+    `.values()`, `.items()`); None otherwise"""
+    if isinstance(node, (ast.Tuple, ast.List)):
+        return None if any(isinstance(e, ast.Starred) for e in node.elts) else list(node.elts)
+    if isinstance(node, ast.Dict):
+        ks = node.keys
+        if any(k is None or not isinstance(k, ast.Constant) for k in ks) or len({repr(k.value) for k in ks}) != len(ks):
+            return None
+        try:
+            if len({k.value for k in ks}) != len(ks):          # 1 / 1.0 / True are the same key
+                return None
+        except TypeError:
+            return None
+        return list(ks)
+    if isinstance(node, ast.Call) and not any(isinstance(a, ast.Starred) for a in node.args):
+        if isinstance(node.func, ast.Attribute) and node.func.attr in ("items", "keys", "values") \
+                and isinstance(node.func.value, ast.Dict) and not node.args and not node.keywords:
+            ks = _iter_elts(node.func.value)
+            if ks is None:
+                return None
+            vs = node.func.value.values
+            return {"keys": ks, "values": list(vs),
+                    "items": [ast.Tuple(elts=[k, v], ctx=ast.Load()) for k, v in zip(ks, vs)]}[node.func.attr]
+        fn = node.func.id if isinstance(node.func, ast.Name) else None
+        if fn == "zip" and node.args and all(k.arg == "strict" for k in node.keywords):
+            cols = [_iter_elts(a) for a in node.args]
+            if any(c is None for c in cols) or (node.keywords and len({len(c) for c in cols}) != 1):
+                return None
+            return [ast.Tuple(elts=list(row), ctx=ast.Load()) for row in zip(*cols)]
+        if fn == "enumerate" and 1 <= len(node.args) + len(node.keywords) <= 2 and node.args \
+                and all(k.arg == "start" for k in node.keywords):
+            seq = _iter_elts(node.args[0])
+            start = node.args[1] if len(node.args) == 2 else node.keywords[0].value if node.keywords else ast.Constant(value=0)
+            if seq is None or not (isinstance(start, ast.Constant) and type(start.value) is int):
+                return None
+            return [ast.Tuple(elts=[ast.Constant(value=start.value + i), e], ctx=ast.Load()) for i, e in enumerate(seq)]
+        if fn in ("reversed", "tuple", "list", "iter") and len(node.args) == 1 and not node.keywords:
+            seq = _iter_elts(node.args[0])
+            return None if seq is None else seq[::-1] if fn == "reversed" else seq
+    return None
+
+
+def _bind_target(tgt, val, m):
+    """loop target pattern against one element: names bind names / chains / constants, tuples bind tuples of equal length"""
+    if isinstance(tgt, ast.Name):
+        if not _simple_arg(val) or tgt.id in m:
+            return False
+        m[tgt.id] = val
+        return True
+    if isinstance(tgt, (ast.Tuple, ast.List)) and isinstance(val, (ast.Tuple, ast.List)) and len(tgt.elts) == len(val.elts) \
+            and not any(isinstance(e, ast.Starred) for e in list(tgt.elts) + list(val.elts)):
+        return all(_bind_target(t, v, m) for t, v in zip(tgt.elts, val.elts))
+    return False
+
+
+def _unroll(st, elts):
+    """`for a, b in ((x1, y1), (x2, y2)): body` -> body[x1, y1]; body[x2, y2]  (evident sequence of names / chains / constants,
     loop variables not assigned in the body, no break / continue)"""
-    tg = [st.target] if isinstance(st.target, ast.Name) else list(st.target.elts) if isinstance(st.target, ast.Tuple) else None
-    if tg is None or not all(isinstance(t, ast.Name) for t in tg):
+    names = [n.id for n in ast.walk(st.target) if isinstance(n, ast.Name)]
+    if any(not isinstance(n, (ast.Name, ast.Tuple, ast.List, ast.Store, ast.Load)) for n in ast.walk(st.target)):
         return None
-    names = [t.id for t in tg]
     for b in st.body:
         for n in ast.walk(b):
             if isinstance(n, (ast.Break, ast.Continue, ast.Lambda, ast.FunctionDef)) or \
                     (isinstance(n, ast.Name) and n.id in names and not isinstance(n.ctx, ast.Load)):
                 return None
     out = []
-    for e in st.iter.elts:
-        vals = [e] if isinstance(st.target, ast.Name) else list(e.elts) if isinstance(e, (ast.Tuple, ast.List)) else None
-        if vals is None or len(vals) != len(names) or not all(_simple_arg(v) for v in vals):
+    for e in elts:
+        m = {}
+        if not _bind_target(st.target, e, m) or sorted(m) != sorted(names):
             return None
-        m = dict(zip(names, vals))
 
         class Sub(ast.NodeTransformer):
             def visit_Name(self, n):
@@ -846,8 +901,9 @@ def _simplify(stmts, funcs, keep, counter):
             if not any(isinstance(n, ast.Name) and n.id in tn for e in st.value.elts for n in ast.walk(e)) and len(tn) == len(st.value.elts):
                 out += [ast.Assign(targets=[t], value=v, lineno=_ln(st)) for t, v in zip(st.targets[0].elts, st.value.elts)]
                 continue
-        if isinstance(st, ast.For) and not st.orelse and isinstance(st.iter, (ast.Tuple, ast.List)) and len(st.iter.elts) <= 8:
-            un = _unroll(st)
+        elts = _iter_elts(st.iter) if isinstance(st, ast.For) and not st.orelse else None
+        if elts is not None and len(elts) <= 8:
+            un = _unroll(st, elts)
             if un is not None:
                 out += _simplify(un, funcs, keep, counter)
                 continue
@@ -913,11 +969,131 @@ def _expand_aliases(body, pars):
     return out
 
 
+def _leaf_ok(e, depth=0):
+    """a sequence element whose evaluation has no effect and whose value does not depend on WHEN it is evaluated, given
+    that the names in it are never rebound later: constants, names, tuples of them"""
+    if isinstance(e, (ast.Constant, ast.Name)):
+        return True
+    return isinstance(e, ast.Tuple) and depth < 3 and all(_leaf_ok(x, depth + 1) for x in e.elts)
+
+
+def _module_const_seqs(tree):
+    """module-level names bound exactly once to a tuple of constants (and never rebound through `global`)"""
+    count, val = {}, {}
+    for st in tree.body:
+        for n in ast.walk(st) if not isinstance(st, (ast.FunctionDef, ast.ClassDef)) else [ast.Name(id=st.name, ctx=ast.Store())]:
+            if isinstance(n, ast.Name) and isinstance(n.ctx, (ast.Store, ast.Del)):
+                count[n.id] = count.get(n.id, 0) + 1
+        tgt = st.targets[0] if isinstance(st, ast.Assign) and len(st.targets) == 1 else getattr(st, "target", None) \
+            if isinstance(st, ast.AnnAssign) and st.value is not None else None
+        if isinstance(tgt, ast.Name) and isinstance(st.value, ast.Tuple) and _leaf_ok(st.value) \
+                and not any(isinstance(n, ast.Name) for n in ast.walk(st.value)):
+            val[tgt.id] = st.value
+    rebound = {nm for n in ast.walk(tree) if isinstance(n, ast.Global) for nm in n.names}
+    return {k: v for k, v in val.items() if count.get(k) == 1 and k not in rebound}
+
+
+def _loop_sources(body, pars, consts):
+    """`for .. in NAME` (or in zip / enumerate / .items() over names) where NAME is bound ONCE, before the loop and outside any
+    loop, to a tuple / list / dict literal of constants and never-rebound names, or is a module-level tuple of constants:
+    the name in the loop header is replaced by the literal, so that the loop can be unrolled.  The assignment itself stays
+    (and is read like any other assignment).  A list / dict literal qualifies only when the name is used nowhere else
+    (nothing can have changed it)."""
+    stores, loads, order, in_loop, k = {}, {}, {}, {}, [0]
+
+    def scan(stmts, looped):
+        for st in stmts:
+            k[0] += 1
+            here = k[0]
+            subs = [getattr(st, f) for f in ("body", "orelse", "finalbody") if isinstance(getattr(st, f, None), list)]
+            subs += [h.body for h in getattr(st, "handlers", [])] + [c.body for c in getattr(st, "cases", [])]
+            own = [x for x in ast.iter_child_nodes(st) if not isinstance(x, (ast.stmt, ast.ExceptHandler))
+                   and type(x).__name__ != "match_case"]
+            for h in getattr(st, "handlers", []):
+                if h.name:
+                    stores[h.name] = stores.get(h.name, 0) + 2
+            for x in own:
+                for n in ast.walk(x):
+                    if isinstance(n, ast.Name):
+                        if isinstance(n.ctx, ast.Load):
+                            loads[n.id] = loads.get(n.id, 0) + 1
+                        else:
+                            stores[n.id] = stores.get(n.id, 0) + 1
+                            order[n.id], in_loop[n.id] = here, looped or isinstance(st, (ast.For, ast.While))
+                    elif isinstance(n, (ast.NamedExpr, ast.ListComp, ast.SetComp, ast.DictComp, ast.GeneratorExp, ast.Lambda)):
+                        stores["*"] = 1                      # scopes / bindings this scan does not follow
+            if isinstance(st, (ast.FunctionDef, ast.AsyncFunctionDef, ast.ClassDef, ast.Global, ast.Nonlocal, ast.Import,
+                               ast.ImportFrom)) or type(st).__name__ == "Match":
+                stores["*"] = 1
+            for sub in subs:
+                scan(sub, looped or isinstance(st, (ast.For, ast.While)))
+
+    scan(body, False)
+    if stores.get("*"):
+        return body, False
+    changed = [False]
+
+    def fixed_before(name, pos):
+        """the name holds the same value from position `pos` on"""
+        c = stores.get(name, 0)
+        return c == 0 or (c == 1 and name not in pars and not in_loop[name] and order[name] < pos)
+
+    def walk(stmts, avail):
+        avail = dict(avail)                                   # name -> (literal, position) bound earlier in an enclosing list
+        for st in stmts:
+            k[0] += 1
+            here = k[0]
+            if isinstance(st, ast.For):
+                names = {n.id for n in ast.walk(st.iter) if isinstance(n, ast.Name) and isinstance(n.ctx, ast.Load)}
+                m = {}
+                for nm in names:
+                    if nm in avail and fixed_before(nm, here):
+                        lit, _ = avail[nm]
+                        n_uses = sum(1 for n in ast.walk(st.iter) if isinstance(n, ast.Name) and n.id == nm)
+                        if isinstance(lit, ast.Tuple) or loads.get(nm, 0) == n_uses:
+                            m[nm] = lit
+                    elif stores.get(nm, 0) == 0 and nm not in pars and nm in consts:
+                        m[nm] = consts[nm]
+                if m:
+                    class Sub(ast.NodeTransformer):
+                        def visit_Name(self, n):
+                            return copy.deepcopy(m[n.id]) if n.id in m and isinstance(n.ctx, ast.Load) else n
+                    it = Sub().visit(copy.deepcopy(st.iter))
+                    if _iter_elts(it) is not None:
+                        st.iter = it
+                        changed[0] = True
+            tgt = st.targets[0] if isinstance(st, ast.Assign) and len(st.targets) == 1 else None
+            if isinstance(tgt, ast.Name) and stores.get(tgt.id) == 1 and tgt.id not in pars and not in_loop[tgt.id]:
+                v = st.value
+                elems = list(v.elts) if isinstance(v, (ast.Tuple, ast.List)) else \
+                    [x for x in list(v.keys) + list(v.values)] if isinstance(v, ast.Dict) and None not in v.keys else None
+                if elems is not None and all(_leaf_ok(e) for e in elems) and all(
+                        fixed_before(n.id, here) for e in elems for n in ast.walk(e) if isinstance(n, ast.Name)):
+                    avail[tgt.id] = (v, here)
+            for f in ("body", "orelse", "finalbody"):
+                sub = getattr(st, f, None)
+                if isinstance(sub, list):
+                    walk(sub, avail)
+            for h in getattr(st, "handlers", []):
+                walk(h.body, avail)
+            for c in getattr(st, "cases", []):
+                walk(c.body, avail)
+        return stmts
+
+    k[0] = 0
+    walk(body, {})
+    return body, changed[0]
+
+
 def _normalised(tree, fname, keep):
     fn = find_func(tree, fname)
     funcs = {n.name: n for n in tree.body if isinstance(n, ast.FunctionDef) and n.name != fname}
     pars = [a.arg for a in fn.args.args + fn.args.kwonlyargs]
-    body = _simplify(copy.deepcopy(body_no_doc(fn)), funcs, set(keep), [0])
+    counter = [0]
+    body = _simplify(copy.deepcopy(body_no_doc(fn)), funcs, set(keep), counter)
+    body, changed = _loop_sources(body, pars, _module_const_seqs(tree))
+    if changed:
+        body = _simplify(body, funcs, set(keep), counter)
     body = _expand_aliases(_flatten(body), pars)
     while body and isinstance(body[-1], ast.Return) and (body[-1].value is None or (
             isinstance(body[-1].value, ast.Constant) and body[-1].value.value is None)):
